@@ -44,11 +44,20 @@ class St:
     def event(self, e):
         return St(self.env, self.heap, self.ev + (e,), self.pc, self.ctr)
     def assume(self, atom, truth):
+        atom, truth = bool_test(atom, truth)
+        if atom[0] == 'lit':
+            return self
         # two-variant enums are recorded through their positive variant, so `is None` and `not is Some` are the same fact
         if atom[0] == 'is' and atom[2] in COMPLEMENT:
             atom, truth = ('is', atom[1], COMPLEMENT[atom[2]]), not truth
         return St(self.env, self.heap, self.ev, self.pc + ((atom, truth),), self.ctr)
     def known(self, atom):
+        atom, flip = bool_test(atom, True)
+        if not flip:
+            r = self.known(atom)
+            return None if r is None else (not r)
+        if atom[0] == 'lit' and isinstance(atom[1], bool):
+            return atom[1]
         if atom[0] == 'is' and atom[2] in COMPLEMENT:
             r = self.known(('is', atom[1], COMPLEMENT[atom[2]]))
             return None if r is None else (not r)
@@ -115,6 +124,20 @@ class St:
         return 'maybe'
     def fresh(self, tag):
         return ('fresh', tag, self.ctr), St(self.env, self.heap, self.ev, self.pc, self.ctr + 1)
+
+def bool_test(atom, truth):
+    """A boolean term compared with a boolean literal is a test of the term itself: `b == true` is b, `b == false` is not b (also
+    what a `true` / `false` pattern tests of its scrutinee), `!b` is b with the opposite outcome.  Path conditions record the
+    term, so `if !s.contains(x)`, `match s.contains(x) { false => .. }` and `s.contains(x) == false` are one and the same fact."""
+    while True:
+        if atom[0] == 'not':
+            atom, truth = atom[1], not truth
+        elif atom[0] == 'bin' and atom[1] == 'Eq' and atom[3][0] == 'lit' and isinstance(atom[3][1], bool) and atom[2][0] != 'lit':
+            atom, truth = atom[2], truth == atom[3][1]
+        elif atom[0] == 'bin' and atom[1] == 'Eq' and atom[2][0] == 'lit' and isinstance(atom[2][1], bool) and atom[3][0] != 'lit':
+            atom, truth = atom[3], truth == atom[2][1]
+        else:
+            return atom, truth
 
 def is_subplace(k, place):
     while isinstance(k, tuple) and k and k[0] == 'field':
